@@ -452,6 +452,15 @@ inline model::MPoly polygon(Ctx& c, bool allow_big) {
         case 0:
         case 1: {  // rectangle / square
             dg_t w = ongrid(c, 1, 200) + frac(c), h = r.chance(0.3) ? w : ongrid(c, 1, 200) + frac(c);
+            if (c.span >= 50000000 && r.chance(0.4)) {
+                // as wide or as tall as the layout (beyond 32 bits of grid steps where the format allows it)
+                bool square = w == h;
+                dg_t big = ongrid(c, c.span / 4, c.span - 1) + frac(c);
+                if (r.chance(0.2)) big = (((dg_t)1 << (c.span > ((dg_t)1 << 33) ? 32 : 29)) + r.range(-1, 1)) * 10;
+                if (square) w = h = big;
+                else if (r.chance(0.5)) w = big;
+                else h = big;
+            }
             p.pts = rect_pts(point(c), w, h);
         } break;
         case 2:
@@ -660,6 +669,7 @@ inline model::MPath path(Ctx& c) {
             p.ev = ongrid(c, r.chance(0.15) ? -20 : 0, 60) + frac(c);
             if (r.chance(0.1)) p.eu = canon::rgrid(p.hw) * 10;
             if (r.chance(0.1)) p.ev = 0;
+            if (r.chance(0.1)) p.eu = 0;
             break;
         default: p.end = model::END_ROUND;
     }
@@ -729,6 +739,7 @@ inline model::MLabel label(Ctx& c) {
     model::MLabel l;
     Rng& r = c.r;
     l.text = text(r, 1, 16, true);
+    if (c.cfg.mode == canon::OAS && r.chance(0.03)) l.text = "";  // an a-string may be empty
     if (c.cfg.long_strings && r.chance(0.03)) l.text = r.chance(0.3) ? text(r, 126, 129, true) : text(r, 300, 3000, true);  // 127/128: one- vs two-byte length
     if (c.cfg.long_strings && c.cfg.mode == canon::GDS && r.chance(0.01)) {
         // as long as one GDSII record can hold ("strings fit one record, < 65530 bytes")
@@ -749,6 +760,11 @@ inline model::MLabel label(Ctx& c) {
             // (powers of 16 sit on the exponent boundaries of the 8-byte real)
             static const double mags[] = {2, 0.5, 0.25, 1.5, 10, 0.001, 3.125, 16, 256, 4096, 65536, 0.0625, 1.0 / 4096, 1.0 / 65536};
             l.mag = mags[r.below(14)];
+            // the ends of the exponent range of the 8-byte real (a label only stores its magnification)
+            if (r.chance(0.1)) {
+                static const double ends[] = {0x1p-160, 0x1p140, 0x1p-260, 0x1p251, 0x1.8p-200, 0x1.fffffffffffffp251};
+                l.mag = ends[r.below(6)];
+            }
         }
         l.xrefl = r.chance(0.2);
     } else {
